@@ -23,7 +23,9 @@ def inst_text(x, variant=0):
     if t == "pnode":
         return "PNODE(%d,%s)" % (i, r(a))
     if t == "pholder":
-        s = ["'x'", "'a#9(;'", "'it''s #1'", "$"][variant % 4]
+        # strings that look like data to a careless scanner: '#', '(' ';', doubled quotes, and the control directive
+        # \S\' (a single character - the apostrophe does not end the string), once and twice
+        s = ["'x'", "'a#9(;'", "'it''s #1'", "$", "'p\\S\\'#%d q\\S\\'r'" % (a[0] if a else 1), "'sect \\S\\' #%d;'" % (a[0] if a else 1)][variant % 6]
         return "PHOLDER((%s),%s,%s)" % (",".join("#%d" % k for k in a), r(b), s)
     if t == "cx":
         return "(PBASE(%d)PPA(%s)PPB(%s))" % (i, r(a), r(b))
